@@ -456,6 +456,7 @@ def hunt_rules(chk, repo):
         nsr += 1
         if not hits:
             chk.ok("C19.shortread", cl_.node, f"{cl_.name}: no fixed multi-byte token is matched against read(n)/readany() (line and delimiter reads use readline/readuntil/readexactly)")
+    hunt2_rules(chk, repo)
     # ---- C19.textsize: a text-mode file's byte size is its payload size only under the same codec (shared with C04) --------------------------
     textsize(chk, repo, "C19.size")
 
@@ -479,3 +480,56 @@ def textsize(chk, repo, rule):
             else:
                 chk.violation(rule + ".newline", r, "return super().size", "None (a text-mode stream cannot promise its encoded length)",
                               "TextIOPayload.size is the on-disk size whenever the codecs agree, but text mode also translates newlines and applies an error handler: a 10-byte CRLF file opened with open(p) writes 8 bytes under `Content-Length: 10` (the peer stalls), with errors='replace' 5 bytes go out under a size of 3; multipart part lengths are wrong the same way")
+
+
+def hunt2_rules(chk, repo):
+    """Rules written after the second defect hunt (F150-F152)."""
+    bp = repo.cls(MP, "BodyPartReader")
+    # ---- C19.lookahead: what readline() has peeked is seen by every other way of reading the part --------------------------------------------
+    rl = bp.methods["readline"]
+    peeks = [c for c in prog.calls_in(rl.node) if norm.raw(c.func) in ("self._unread.append", "self._unread.appendleft")]
+    rc = bp.methods["read_chunk"]
+    if peeks:
+        reads = [c.lineno for c in prog.calls_in(rc.node) if norm.raw(c.func).startswith(("self._content.read", "self._read_chunk_from"))]
+        uses = [n_.lineno for n_ in ast.walk(rc.node) if isinstance(n_, ast.Attribute) and n_.attr == "_unread" and norm.raw(n_.value) == "self"]
+        if uses and reads and min(uses) < min(reads):
+            chk.ok("C19.lookahead", rc, "read_chunk() takes the line readline() has looked ahead before it reads from the stream (read(), release() and next() go through read_chunk())")
+        else:
+            chk.violation("C19.lookahead", rc, "read_chunk()", "drain self._unread (push the peeked line back) before reading from self._content",
+                          "readline() keeps the next line in self._unread, and no other read path looks there: readline() followed by read() silently drops a line of the part, reading only the first line of each part and calling next() raises `Invalid boundary`, release() swallows the following part")
+        cnt = [a for a in ast.walk(rl.node) if isinstance(a, ast.AugAssign) and norm.raw(a.target) == "self._read_bytes"]
+        if cnt:
+            chk.ok("C19.lookahead", cnt[0], "readline() counts the bytes it hands out (a Content-Length delimited part stays in step)")
+        else:
+            chk.violation("C19.lookahead", rl, "return line", "self._read_bytes += len(line)", "readline() does not count what it returns: in a part delimited by Content-Length a following read_chunk() reads past the end of the part")
+    else:
+        chk.ok("C19.lookahead", rl, "readline() keeps no look-ahead")
+    # ---- C19.limit: client_max_size == 0 means `no limit` in every reader of the request body (sibling agreement) -------------------------------
+    nlim = 0
+    for rel, cname in ((MP, "BodyPartReader"), ("aiohttp/web_request.py", "BaseRequest")):
+        for m in repo.cls(rel, cname).methods.values():
+            for c in [c for c in ast.walk(m.node) if isinstance(c, ast.Compare) and any("_client_max_size" in norm.raw(x) for x in [c.left] + c.comparators) and any(isinstance(o, (ast.Gt, ast.Lt, ast.GtE, ast.LtE)) for o in c.ops)]:
+                nlim += 1
+                zero_aware = (len(c.ops) == 2 and isinstance(c.left, ast.Constant) and c.left.value == 0) or any(l.pos and l.text.endswith("_client_max_size") for cl_ in PC.pc(c, raw=True) for l in cl_) \
+                    or any(isinstance(b_, ast.BoolOp) and isinstance(b_.op, ast.And) and any(norm.raw(v).endswith("_client_max_size") for v in b_.values) and any(x is c for x in ast.walk(b_)) for b_ in ast.walk(m.node))
+                if zero_aware:
+                    chk.ok("C19.limit", c, f"{cname}.{m.name}: the size test applies only when client_max_size is non-zero")
+                else:
+                    chk.violation("C19.limit", c, norm.raw(c), "0 < self._client_max_size < len(...)",
+                                  f"{cname}.{m.name}() compares the size with client_max_size without the `0 = no limit` convention its siblings (request.read(), request.post()) follow: with client_max_size=0 every multipart field is refused with 413 `Maximum request body size 0 exceeded`")
+    chk.expect_count("C19.limit.zero", nlim, 3, "size comparisons against client_max_size")
+    # ---- C19.decode: a part decoded chunk by chunk is decoded as one stream -------------------------------------------------------------------------
+    di = bp.methods["decode_iter"]
+    fresh = [c for c in prog.calls_in(di.node) if norm.raw(c.func) == "ZLibDecompressor"]
+    for c in fresh:
+        if PC.pc(c, raw=True) and any("eof" in l.text or "is None" in l.text for cl_ in PC.pc(c, raw=True) for l in cl_ if "encoding" not in l.text):
+            chk.ok("C19.decode", c, "decode_iter() keeps one decompressor per part until the compressed stream has ended")
+        else:
+            chk.violation("C19.decode", c, K.short(c, 50), "self._decompressor, renewed only when it is None or at eof",
+                          "decode_iter() makes a new decompressor for every call: BodyPartReaderPayload.write() and web.Request.post() decode a part chunk by chunk (256 KiB), so a gzip/deflate part whose compressed data exceeds one chunk raises zlib.error although read(decode=True) decodes it")
+    qp = [i for i in ast.walk(rc.node) if isinstance(i, ast.If) and "quoted-printable" in norm.raw(i.test)]
+    if qp and any(isinstance(a, ast.Assign) and "carry" in norm.raw(a.targets[0]) for a in ast.walk(qp[0])):
+        chk.ok("C19.decode", qp[0], "read_chunk(): a quoted-printable chunk never ends inside an `=XX` escape (the unfinished tail is carried to the next chunk)")
+    else:
+        chk.violation("C19.decode", rc, "read_chunk()", "carry an unfinished `=`, `=X` or `=\\r` tail of a quoted-printable chunk",
+                      "quoted-printable parts are decoded chunk by chunk without state: where the 256 KiB chunk edge cuts an `=XX` escape the decoder emits the literal characters - a 600000-byte part comes back with 600001 bytes")
